@@ -41,7 +41,7 @@ type layer struct {
 	build func() (fs hackpadfs.FS, parts []hackpadfs.FS, done func())
 }
 
-var allNSOps = []string{"mkdir", "mkdirall", "openclose", "open-ro", "writefile", "remove", "removeall", "rename-old", "rename-new", "chmod", "chtimes", "stat", "readdir", "readfile", "sub"}
+var allNSOps = []string{"mkdir", "mkdirall", "openclose", "open-ro", "writefile", "remove", "removeall", "rename-old", "rename-new", "rename-new-missing-old", "chmod", "chtimes", "stat", "readdir", "readfile", "sub"}
 
 // the generic Sub view provides no Rename of its own (hackpadfs.Rename on it is ErrNotImplemented)
 var subOps = []string{"mkdir", "mkdirall", "openclose", "open-ro", "writefile", "remove", "removeall", "chmod", "chtimes", "stat", "readdir", "readfile", "sub"}
@@ -151,6 +151,8 @@ func c04Op(kind, name string) Op {
 		return Op{Kind: "rename", P: name, Q: "zz"}
 	case "rename-new":
 		return Op{Kind: "rename", P: "f", Q: name}
+	case "rename-new-missing-old":
+		return Op{Kind: "rename", P: "nope", Q: name}
 	case "chmod":
 		return Op{Kind: kind, P: name, Perm: 0o600}
 	case "chtimes":
@@ -213,7 +215,7 @@ func runC04(r *Rng, n int, replay string) {
 				} else {
 					c.Cells = []string{l.name + "/" + kind + "/valid"}
 					if a.failed() && a.Err != nil && a.Err.Cls == "EINVAL" && !strings.Contains(name, "\x00") &&
-						!(kind == "rename-old" || kind == "rename-new" || kind == "remove" || kind == "removeall") {
+						!(kind == "rename-old" || kind == "rename-new" || kind == "rename-new-missing-old" || kind == "remove" || kind == "removeall") {
 						// (removing or renaming the root or a mount point is refused with ErrInvalid for another reason)
 						c.fail(c.Text[0]+": a valid name was refused as invalid", kind+":"+l.name+":refused-valid")
 					}
